@@ -669,14 +669,11 @@ func c02Reject(c *Ctx) {
 		{"pref64-bad-length", "parsePlugins", "pref64 prefix has a NAT64 length", func(r rejection) bool {
 			ks := map[int64]bool{}
 			for _, a := range r.atoms {
-				cmpAtom(a, func(x, y *an.Expr, op token.Token) bool {
-					if isBits(x) && op == token.NEQ {
-						if k, ok := y.ConstInt(); ok {
-							ks[k] = true
-						}
+				if x, set, member, ok := c.memberAtom(a); ok && !member && isBits(x) {
+					for _, k := range set {
+						ks[k] = true
 					}
-					return false
-				})
+				}
 			}
 			return len(ks) == 6 && ks[32] && ks[40] && ks[48] && ks[56] && ks[64] && ks[96]
 		}},
@@ -765,6 +762,29 @@ func c02Reject(c *Ctx) {
 						nn = 1
 					}
 					tests[src] = append(tests[src], errIf{ifi, nn})
+				}
+			}
+		}
+		// an error handed straight to the caller (`return helper(...)`) is propagated, not ignored
+		for v, st := range sites {
+			call := v.(*ssa.Call)
+			if call.Referrers() == nil {
+				continue
+			}
+			for _, r := range *call.Referrers() {
+				var errVal ssa.Value
+				if ex, ok := r.(*ssa.Extract); ok && ex.Index == call.Call.Signature().Results().Len()-1 {
+					errVal = ex
+				} else if _, ok := r.(*ssa.Return); ok && call.Call.Signature().Results().Len() == 1 {
+					errVal = call
+				}
+				if errVal == nil || errVal.Referrers() == nil {
+					continue
+				}
+				for _, rr := range *errVal.Referrers() {
+					if ret, ok := rr.(*ssa.Return); ok && len(ret.Results) > 0 && ret.Results[len(ret.Results)-1] == errVal {
+						st.tested = true
+					}
 				}
 			}
 		}
